@@ -5,8 +5,8 @@
 (* one of the eleven blend modes and six Porter-Duff operators:               *)
 (*  - result and result alpha in [0, 1] (premultiplied: 0 <= co <= ao <= 1);   *)
 (*    for `plus` this is FALSE on the model (PlusRange, asserted only when     *)
-(*    AssertPlusRange = TRUE: the check runs it once expecting the             *)
-(*    counterexample and reports it as a model finding);                      *)
+(*    AssertPlusRange # "no": the check runs it expecting the counterexample   *)
+(*    and reports it as a model finding);                                     *)
 (*  - opaque inputs reduce to B(cs, cb);                                      *)
 (*  - a transparent source over a backdrop is the backdrop, an opaque source   *)
 (*    over anything is the source (and the same for every blend mode with a    *)
@@ -25,9 +25,10 @@ EXTENDS Blend, TLC
 
 CONSTANTS GBits,              \* grid step 2^-GBits, GBits \in {2, 3}
           Ops,                \* the operations enumerated: subset of BlendModes \cup ComposeOps \cup {"premul"}
-          AssertPlusRange     \* TRUE: also assert the range clause for `plus` (expected to fail)
+          AssertPlusRange     \* "colour" / "alpha": also assert that part of the range clause for `plus` (expected
+                              \* to fail); "no": the registered configuration
 
-ASSUME GBits \in {2, 3} /\ Ops \subseteq (BlendModes \cup ComposeOps \cup {"premul"}) /\ AssertPlusRange \in BOOLEAN
+ASSUME GBits \in {2, 3} /\ Ops \subseteq (BlendModes \cup ComposeOps \cup {"premul"}) /\ AssertPlusRange \in {"no", "colour", "alpha"}
 
 G == Pow2Small(GBits)
 V(k) == DyMulPow2(DyFromInt(k), -GBits)
@@ -128,7 +129,8 @@ ComposeRange(c) ==
 
 (* FALSE on the model: lighter's co = Cs + Cb and ao = as + ab exceed 1 *)
 PlusRange(c) ==
-  (AssertPlusRange /\ op = "plus") => DyLe(c, D1) /\ DyLe(ComposeAlphaRaw(op, as, ab), D1)
+  /\ (AssertPlusRange = "colour" /\ op = "plus") => DyLe(c, D1)
+  /\ (AssertPlusRange = "alpha" /\ op = "plus") => DyLe(ComposeAlphaRaw(op, as, ab), D1)
 
 OverIdentities(c) ==
   op = "over" =>
